@@ -1,8 +1,12 @@
 // gen_c05 regenerates lean/GocoinV/Gen/ConsensusConsts.lean from /repo's current source
 // (translator tie for C05). Everything is read from the AST; constant expressions are folded with
-// go/constant. Guards are located by the RPC_Result marker string inside their body, so renaming a
-// variable does not break the tie, while changing a limit, an operator or an activation height changes
-// the generated definitions (limit / height) or stops the generator (operator: broken tie).
+// go/constant. Guards are located by the RPC_Result marker string inside their body (in the analysed function or in
+// an unexported same-package helper it calls), their conditions are read in a canonical form (norm.go: helpers and
+// single-definition locals expanded, negation normal form, constant on the right, integer `<= c` read as `< c+1`),
+// and no name of a local, parameter, named result or unexported helper is compared with a literal. Renaming,
+// extracting / inlining a predicate, De Morgan rewrites, if-chain vs tag-less switch therefore do not break the tie,
+// while changing a limit, an operator, a polarity or an activation height changes the generated definitions
+// (limit / height) or stops the generator (operator / polarity / connective: broken tie).
 package main
 
 import (
@@ -104,35 +108,6 @@ func fileConsts(f *vtrans.File, env consts) {
 	}
 }
 
-// findIf returns the if-statement of fd whose body (not nested else) contains a string literal with marker.
-func findIf(fd *ast.FuncDecl, marker string) *ast.IfStmt {
-	var res *ast.IfStmt
-	ast.Inspect(fd.Body, func(n ast.Node) bool {
-		is, ok := n.(*ast.IfStmt)
-		if !ok {
-			return true
-		}
-		found := false
-		ast.Inspect(is.Body, func(m ast.Node) bool {
-			if _, nested := m.(*ast.IfStmt); nested {
-				return false // a nested guard owns its own markers
-			}
-			if bl, ok := m.(*ast.BasicLit); ok && bl.Kind == token.STRING && strings.Contains(bl.Value, marker) {
-				found = true
-			}
-			return true
-		})
-		if found && res == nil {
-			res = is
-		}
-		return true
-	})
-	if res == nil {
-		die("%s: no guard carrying the marker %q", fd.Name.Name, marker)
-	}
-	return res
-}
-
 // cmp describes `<non-constant> OP <constant-part>`; constant addends on the non-constant side are folded
 // into cst (x OP y + c).
 type cmp struct {
@@ -166,25 +141,36 @@ func constAddends(e ast.Expr, env consts) (sum constant.Value, nonconst int) {
 	return
 }
 
-// comparisons lists the comparisons in a condition, left to right.
-func comparisons(cond ast.Expr, env consts) (out []cmp) {
-	ast.Inspect(cond, func(n ast.Node) bool {
-		be, ok := n.(*ast.BinaryExpr)
-		if !ok {
-			return true
+// comparisons lists the comparison atoms of a normalised condition, left to right.
+func comparisons(n *nnf, env consts) (out []cmp) {
+	for _, a := range n.atoms() {
+		if a.op != token.ILLEGAL {
+			c, _ := constAddends(a.y, env)
+			out = append(out, cmp{a.op, c})
 		}
-		switch be.Op {
-		case token.LSS, token.GTR, token.LEQ, token.GEQ, token.EQL, token.NEQ:
-			c, _ := constAddends(be.Y, env)
-			out = append(out, cmp{be.Op, c})
-			return false
-		}
-		return true
-	})
+	}
 	return
 }
 
+// canon re-states an integer comparison with the operator the model was written for, when that is possible
+// without changing its meaning: x <= c is x < c+1, x >= c is x > c-1 (every comparison read here is between
+// integers: lengths, weights, heights, versions, unix times).
+func canon(c cmp, op token.Token) cmp {
+	if c.op == op || c.cst == nil || constant.ToInt(c.cst).Kind() != constant.Int {
+		return c
+	}
+	v, one := constant.ToInt(c.cst), constant.MakeInt64(1)
+	switch {
+	case c.op == token.LEQ && op == token.LSS, c.op == token.GTR && op == token.GEQ:
+		return cmp{op, constant.BinaryOp(v, token.ADD, one)}
+	case c.op == token.LSS && op == token.LEQ, c.op == token.GEQ && op == token.GTR:
+		return cmp{op, constant.BinaryOp(v, token.SUB, one)}
+	}
+	return c
+}
+
 func want(c cmp, op token.Token, what string) string {
+	c = canon(c, op)
 	if c.op != op {
 		die("%s: comparison operator is %s, the model was written for %s", what, c.op, op)
 	}
@@ -212,12 +198,18 @@ func main() {
 	fileConsts(btcConst, env)
 	chConst := parse("lib/chain/const.go")
 	fileConsts(chConst, env)
-	diff := parse("lib/chain/chain_diff.go")
-	fileConsts(diff, env)
+	fileConsts(parse("lib/chain/chain_diff.go"), env)
 	scr := parse("lib/script/script.go")
 	fileConsts(scr, env)
 	opc := parse("lib/btc/opcodes.go")
 	fileConsts(opc, env)
+
+	// the two packages whose functions are analysed; their remaining constants (files not named above) are added
+	// without overriding anything
+	chain := loadPkg("lib/chain")
+	btcPkg := loadPkg("lib/btc")
+	chain.addConsts(env)
+	btcPkg.addConsts(env)
 
 	for _, n := range []string{"MAX_BLOCK_WEIGHT", "MAX_MONEY", "LOCKTIME_THRESHOLD", "MedianTimeSpan", "MovingCheckopintDepth", "BIP16SwitchTime",
 		"POWRetargetSpam", "TargetSpacing", "targetInterval",
@@ -229,85 +221,89 @@ func main() {
 		def(n, toNat(v, n), "Go constant "+n)
 	}
 
-	// ---- block_check.go guards
-	bc := parse("lib/chain/block_check.go")
-	pre, err := bc.Func("Chain", "PreCheckBlock")
-	if err != nil {
-		die("%v", err)
-	}
-	post, err := bc.Func("Chain", "PostCheckBlock")
-	if err != nil {
-		die("%v", err)
-	}
-	one := func(fd *ast.FuncDecl, marker string, idx int, op token.Token, name, comment string) {
-		cs := comparisons(findIf(fd, marker).Cond, env)
+	// ---- PreCheckBlock / PostCheckBlock guards (package lib/chain; the functions may live in any file of it)
+	pre := chain.get("Chain", "PreCheckBlock")
+	post := chain.get("Chain", "PostCheckBlock")
+	one := func(pk *pkgFuncs, fd *ast.FuncDecl, marker string, idx int, op token.Token, name, comment string) {
+		cs := comparisons(pk.findGuard(fd, marker).norm(env), env)
 		if idx >= len(cs) {
 			die("%s/%s: guard has %d comparisons, expected more than %d", fd.Name.Name, marker, len(cs), idx)
 		}
 		def(name, want(cs[idx], op, fd.Name.Name+"/"+marker), comment)
 	}
-	one(pre, "bad-blk-length", 0, token.LSS, "preMinRawLen", "PreCheckBlock: len(bl.Raw) < this is refused")
-	one(post, "bad-blk-length", 0, token.LSS, "postMinRawLen", "PostCheckBlock: len(bl.Raw) < this is refused")
-	one(pre, "time-too-new", 0, token.GTR, "maxFutureBlockTime", "PreCheckBlock: block time > now + this is refused")
-	// dos assignment inside the time-too-new guard:  dos = int64(bl.BlockTime()) > time.Now().Unix()+A+B
+	one(chain, pre, "bad-blk-length", 0, token.LSS, "preMinRawLen", "PreCheckBlock: len(bl.Raw) < this is refused")
+	one(chain, post, "bad-blk-length", 0, token.LSS, "postMinRawLen", "PostCheckBlock: len(bl.Raw) < this is refused")
+	one(chain, pre, "time-too-new", 0, token.GTR, "maxFutureBlockTime", "PreCheckBlock: block time > now + this is refused")
+	// dos value inside the time-too-new guard:  <first result> = int64(bl.BlockTime()) > time.Now().Unix()+A+B
+	// (an assignment to the first named result, or the first operand of a return statement)
 	{
-		is := findIf(pre, "time-too-new")
-		found := false
-		for _, st := range is.Body.List {
-			as, ok := st.(*ast.AssignStmt)
-			if !ok || len(as.Lhs) != 1 {
-				continue
-			}
-			if id, ok := as.Lhs[0].(*ast.Ident); ok && id.Name == "dos" {
-				cs := comparisons(as.Rhs[0], env)
-				if len(cs) != 1 {
-					die("time-too-new: dos expression has unexpected shape")
+		g := chain.findGuard(pre, "time-too-new")
+		res0 := ""
+		if r := g.fd.Type.Results; r != nil && len(r.List) > 0 && len(r.List[0].Names) > 0 {
+			res0 = r.List[0].Names[0].Name
+		}
+		var cands []ast.Expr
+		for _, st := range g.body {
+			switch x := st.(type) {
+			case *ast.AssignStmt:
+				if len(x.Lhs) == len(x.Rhs) {
+					for i, l := range x.Lhs {
+						if id, ok := l.(*ast.Ident); ok && res0 != "" && id.Name == res0 {
+							cands = append(cands, x.Rhs[i])
+						}
+					}
 				}
-				def("futureDosLimit", want(cs[0], token.GTR, "time-too-new dos"), "PreCheckBlock: time-too-new is a DoS when block time > now + this")
-				found = true
+			case *ast.ReturnStmt:
+				if len(x.Results) > 1 {
+					cands = append(cands, x.Results[0])
+				}
 			}
+		}
+		found := false
+		for _, c := range cands {
+			cs := comparisons(toNNF(g.in.expand(c, 2), false, env), env)
+			if len(cs) == 0 {
+				continue // a constant / a variable
+			}
+			if len(cs) != 1 || found {
+				die("time-too-new: dos expression has unexpected shape")
+			}
+			def("futureDosLimit", want(cs[0], token.GTR, "time-too-new dos"), "PreCheckBlock: time-too-new is a DoS when block time > now + this")
+			found = true
 		}
 		if !found {
 			die("time-too-new: dos assignment not found")
 		}
 	}
-	one(pre, "bad-version", 0, token.EQL, "forbiddenVersion", "PreCheckBlock: version == this is refused outright")
-	one(post, "bad-blk-weight", 0, token.GTR, "postMaxWeight", "PostCheckBlock: BlockWeight > this is refused")
+	one(chain, pre, "bad-version", 0, token.EQL, "forbiddenVersion", "PreCheckBlock: version == this is refused outright")
+	one(chain, post, "bad-blk-weight", 0, token.GTR, "postMaxWeight", "PostCheckBlock: BlockWeight > this is refused")
 	// fork depth guard: `prevblk != lst_now && int(lst_now.Height)-int(bl.Height) >= MovingCheckopintDepth`
+	// (a conjunction of a node inequality and a depth comparison, in either order)
 	{
-		cs := comparisons(findIf(pre, "hooks too deep").Cond, env)
-		if len(cs) != 2 || cs[0].op != token.NEQ {
+		at, ok := chain.findGuard(pre, "hooks too deep").norm(env).flat(nAnd)
+		if !ok || len(at) != 2 || at[0].op == token.ILLEGAL || at[1].op == token.ILLEGAL {
 			die("fork-depth guard has unexpected shape")
 		}
-		def("forkDepthLimit", want(cs[1], token.GEQ, "fork depth"), "PreCheckBlock: side branch refused when lastHeight - height >= this")
+		ne, depth := at[0], at[1]
+		if ne.op != token.NEQ {
+			ne, depth = depth, ne
+		}
+		if ne.op != token.NEQ {
+			die("fork-depth guard has unexpected shape")
+		}
+		c, _ := constAddends(depth.y, env)
+		def("forkDepthLimit", want(cmp{depth.op, c}, token.GEQ, "fork depth"), "PreCheckBlock: side branch refused when lastHeight - height >= this")
 	}
 	// BlockIndex look-ups of PreCheckBlock: the map is keyed by BIdx (first 8 bytes of a hash). Structural facts:
 	// is the entry found compared with the WHOLE hash (a) of the block itself, (b) of the previous-block field?
 	// `true`/`false` is emitted (the model follows the source, the theorems need `true`); any other shape stops.
 	{
-		mentions := func(e ast.Node, name string) (yes bool) {
-			ast.Inspect(e, func(n ast.Node) bool {
-				switch x := n.(type) {
-				case *ast.SelectorExpr:
-					if x.Sel.Name == name {
-						yes = true
-					}
-				case *ast.Ident:
-					if x.Name == name {
-						yes = true
-					}
-				}
-				return true
-			})
-			return
-		}
-		// a negated call `!X.Equal(...)` / `!bytes.Equal(...)` that mentions every name of `names`
-		negEqual := func(e ast.Expr, names ...string) bool {
-			u, ok := e.(*ast.UnaryExpr)
-			if !ok || u.Op != token.NOT {
+		// equalLeaf: the atom is a call `X.Equal(...)` / `bytes.Equal(...)` that mentions every name of `names`
+		equalLeaf := func(a *nnf, names ...string) bool {
+			if a.kind != nAtom || a.op != token.ILLEGAL {
 				return false
 			}
-			call, ok := u.X.(*ast.CallExpr)
+			call, ok := a.leaf.(*ast.CallExpr)
 			if !ok {
 				return false
 			}
@@ -322,29 +318,80 @@ func main() {
 			}
 			return true
 		}
+		identLeaf := func(a *nnf, name string) bool {
+			if a.kind != nAtom || a.op != token.ILLEGAL {
+				return false
+			}
+			id, ok := a.leaf.(*ast.Ident)
+			return ok && id.Name == name
+		}
 		defb := func(name string, v bool, comment string) {
 			fmt.Fprintf(&sb, "/-- %s -/\ndef %s : Bool := %v\n", comment, name, v)
 			facts++
 		}
+		// index look-ups `a, b := X.BlockIndex[…BIdx()]` of a function: (statement, entry name, ok name, index expression)
+		type lookup struct {
+			st        ast.Stmt
+			entry, ok string
+			index     ast.Expr
+		}
+		lookups := func(fd *ast.FuncDecl) (out []lookup) {
+			in := newInliner(chain, fd)
+			ast.Inspect(fd.Body, func(n ast.Node) bool {
+				as, isAs := n.(*ast.AssignStmt)
+				if !isAs || len(as.Lhs) != 2 || len(as.Rhs) != 1 {
+					return true
+				}
+				ix, isIx := as.Rhs[0].(*ast.IndexExpr)
+				if !isIx || !mentions(ix.X, "BlockIndex") {
+					return true
+				}
+				e, ok1 := as.Lhs[0].(*ast.Ident)
+				o, ok2 := as.Lhs[1].(*ast.Ident)
+				idx := in.expand(ix.Index, 2)
+				if ok1 && ok2 && mentions(idx, "BIdx") {
+					out = append(out, lookup{as, e.Name, o.Name, idx})
+				}
+				return true
+			})
+			return
+		}
+		preIn := newInliner(chain, pre)
+		norm := func(e ast.Expr) *nnf { return toNNF(preIn.expand(e, 2), false, env) }
 		// (a) `if prv, pres := ch.BlockIndex[bl.Hash.BIdx()]; pres { [if !prv.BlockHash.Equal(bl.Hash) {…return}] if prv.Parent == nil {…} else {…} }`
-		var known *ast.IfStmt
-		for _, st := range pre.Body.List {
-			is, ok := st.(*ast.IfStmt)
-			if !ok || is.Init == nil {
-				continue
-			}
-			as, ok := is.Init.(*ast.AssignStmt)
-			if !ok || len(as.Lhs) != 2 || len(as.Rhs) != 1 {
-				continue
-			}
-			if ix, ok := as.Rhs[0].(*ast.IndexExpr); ok && mentions(ix.X, "BlockIndex") && mentions(ix.Index, "BIdx") {
-				known = is
+		//     (also: the look-up as a statement of its own before `if pres`; the comparison as
+		//      `if prv.BlockHash.Equal(bl.Hash) {genesis / duplicate} else {collision}`)
+		var own *lookup
+		var parentLk *lookup
+		for _, l := range lookups(pre) {
+			l := l
+			if mentions(l.index, "ParentHash") {
+				if parentLk != nil {
+					die("PreCheckBlock: more than one BlockIndex look-up by the previous-block field")
+				}
+				parentLk = &l
+			} else {
+				if own != nil {
+					die("PreCheckBlock: more than one BlockIndex look-up by the block's own hash")
+				}
+				own = &l
 			}
 		}
+		if own == nil {
+			die("PreCheckBlock: the `if prv, pres := ch.BlockIndex[...]; pres` test was not found")
+		}
+		var known *ast.IfStmt
+		ast.Inspect(pre.Body, func(n ast.Node) bool {
+			if is, ok := n.(*ast.IfStmt); ok && known == nil {
+				if a := norm(is.Cond); identLeaf(a, own.ok) && !a.neg {
+					known = is
+				}
+			}
+			return known == nil
+		})
 		if known == nil {
 			die("PreCheckBlock: the `if prv, pres := ch.BlockIndex[...]; pres` test was not found")
 		}
-		entry := known.Init.(*ast.AssignStmt).Lhs[0].(*ast.Ident).Name
 		if len(known.Body.List) == 0 {
 			die("PreCheckBlock: empty known-block test")
 		}
@@ -352,111 +399,164 @@ func main() {
 		if !ok {
 			die("PreCheckBlock: known-block test has unexpected shape")
 		}
-		switch {
-		case negEqual(first.Cond, entry, "BlockHash", "Hash") && len(known.Body.List) == 2:
-			ret := false
-			for _, st := range first.Body.List {
-				if _, ok := st.(*ast.ReturnStmt); ok {
-					ret = true
+		anyEqual := false // is the entry's hash compared anywhere inside the known-block test?
+		ast.Inspect(known.Body, func(n ast.Node) bool {
+			if call, ok := n.(*ast.CallExpr); ok {
+				if fn, ok := call.Fun.(*ast.SelectorExpr); ok && fn.Sel.Name == "Equal" && mentions(call, own.entry) {
+					anyEqual = true
 				}
 			}
-			if !ret {
+			return true
+		})
+		fc := norm(first.Cond)
+		elseReturns := func(is *ast.IfStmt) bool {
+			eb, ok := is.Else.(*ast.BlockStmt)
+			return ok && returns(eb.List)
+		}
+		switch {
+		case equalLeaf(fc, own.entry, "BlockHash", "Hash") && fc.neg:
+			// collision guard first, the rest after it
+			if !returns(first.Body.List) {
+				die("PreCheckBlock: the index-collision guard does not return")
+			}
+			if len(known.Body.List) < 2 {
+				die("PreCheckBlock: known-block test has unexpected shape")
+			}
+			defb("knownHashCompared", true, "PreCheckBlock: the BlockIndex entry found under the block's own key is compared with the whole block hash")
+		case equalLeaf(fc, own.entry, "BlockHash", "Hash") && !fc.neg && len(known.Body.List) == 1:
+			// same block: genesis / duplicate, else: collision
+			if !elseReturns(first) {
 				die("PreCheckBlock: the index-collision guard does not return")
 			}
 			defb("knownHashCompared", true, "PreCheckBlock: the BlockIndex entry found under the block's own key is compared with the whole block hash")
-		case len(known.Body.List) == 1 && mentions(first.Cond, "Parent"):
+		case !anyEqual && len(known.Body.List) == 1 && mentions(first.Cond, "Parent"):
 			defb("knownHashCompared", false, "PreCheckBlock: the BlockIndex entry found under the block's own key is NOT compared with the whole block hash")
 		default:
 			die("PreCheckBlock: known-block test has unexpected shape")
 		}
-		// (b) `prevblk, ok := ch.BlockIndex[…BIdx()]` followed by `if !ok [|| !bytes.Equal(prevblk.BlockHash.Hash[:], bl.ParentHash())] {… parent not found …}`
-		pg := findIf(pre, "parent not found")
-		var pvar, okvar string
-		for i, st := range pre.Body.List {
-			if st == ast.Stmt(pg) && i > 0 {
-				if as, ok := pre.Body.List[i-1].(*ast.AssignStmt); ok && len(as.Lhs) == 2 && len(as.Rhs) == 1 {
-					if ix, ok := as.Rhs[0].(*ast.IndexExpr); ok && mentions(ix.X, "BlockIndex") && mentions(ix.Index, "ParentHash") && mentions(ix.Index, "BIdx") {
-						pvar, okvar = as.Lhs[0].(*ast.Ident).Name, as.Lhs[1].(*ast.Ident).Name
-					}
-				}
+		// (b) `prevblk, ok := ch.BlockIndex[…BIdx()]` and `if !ok [|| !bytes.Equal(prevblk.BlockHash.Hash[:], bl.ParentHash())] {… parent not found …}`
+		//     (the look-up may be the guard's init statement; the condition may be written `!(ok && bytes.Equal(…))`)
+		parentGuard := func(what string, fd *ast.FuncDecl, marker string, lk *lookup) bool {
+			if lk == nil {
+				die("%s: the parent look-up `prevblk, ok := ch.BlockIndex[…ParentHash()…BIdx()]` was not found", what)
 			}
-		}
-		if pvar == "" {
-			die("PreCheckBlock: the parent look-up `prevblk, ok := ch.BlockIndex[…ParentHash()…BIdx()]` does not precede the parent-not-found guard")
-		}
-		notOk := func(e ast.Expr) bool {
-			u, ok := e.(*ast.UnaryExpr)
-			if !ok || u.Op != token.NOT {
-				return false
+			g := chain.findGuard(fd, marker)
+			if g.fd != fd {
+				die("%s: the guard %q is not in the function that makes the look-up", what, marker)
 			}
-			id, ok := u.X.(*ast.Ident)
-			return ok && id.Name == okvar
-		}
-		if notOk(pg.Cond) {
-			defb("parentHashCompared", false, "PreCheckBlock: the parent found in BlockIndex is NOT compared with the whole previous-block field")
-		} else if be, ok := pg.Cond.(*ast.BinaryExpr); ok && be.Op == token.LOR && notOk(be.X) && negEqual(be.Y, pvar, "BlockHash", "ParentHash") {
-			defb("parentHashCompared", true, "PreCheckBlock: the parent found in BlockIndex is compared with the whole previous-block field")
-		} else {
-			die("PreCheckBlock: parent-not-found guard has unexpected shape")
-		}
-		// the same guard in AcceptHeader (panic instead of an error)
-		ca := parse("lib/chain/chain_accept.go")
-		ah, err := ca.Func("Chain", "AcceptHeader")
-		if err != nil {
-			die("%v", err)
-		}
-		ag := findIf(ah, "This should not happen")
-		if be, ok := ag.Cond.(*ast.BinaryExpr); ok && be.Op == token.LOR && negEqual(be.Y, "BlockHash", "ParentHash") {
-			defb("acceptHeaderParentHashCompared", true, "AcceptHeader: the parent found in BlockIndex is compared with the whole previous-block field")
-		} else if _, ok := ag.Cond.(*ast.UnaryExpr); ok {
-			defb("acceptHeaderParentHashCompared", false, "AcceptHeader: the parent found in BlockIndex is NOT compared with the whole previous-block field")
-		} else {
-			die("AcceptHeader: parent guard has unexpected shape")
-		}
-	}
-	// version gating: three `ver < k && bl.Height >= ch.Consensus.X`
-	{
-		is := findIf(pre, "Rejected Version=")
-		cs := comparisons(is.Cond, env)
-		if len(cs) != 6 {
-			die("version gating: expected 6 comparisons, got %d", len(cs))
-		}
-		var sels []string
-		ast.Inspect(is.Cond, func(n ast.Node) bool {
-			if se, ok := n.(*ast.SelectorExpr); ok && strings.HasPrefix(se.Sel.Name, "BIP") {
-				sels = append(sels, se.Sel.Name)
+			if lk.st.Pos() > g.node.Pos() && lk.st != g.init {
+				die("%s: the parent look-up does not precede its guard", what)
 			}
-			return true
-		})
-		if len(sels) != 3 {
-			die("version gating: expected 3 BIP height references")
-		}
-		for i := 0; i < 3; i++ {
-			v := want(cs[2*i], token.LSS, "version gating")
-			if cs[2*i+1].op != token.GEQ {
-				die("version gating: height comparison is %s, expected >=", cs[2*i+1].op)
-			}
-			def("minVersion_"+sels[i], v, "PreCheckBlock: version < this is refused from "+sels[i])
-		}
-	}
-	// witness commitment guard
-	{
-		var hdr []uint64
-		minlen := ""
-		ast.Inspect(post.Body, func(n ast.Node) bool {
-			is, ok := n.(*ast.IfStmt)
+			at, ok := g.norm(env).flat(nOr)
 			if !ok {
+				die("%s: parent-not-found guard has unexpected shape", what)
+			}
+			switch {
+			case len(at) == 1 && identLeaf(at[0], lk.ok) && at[0].neg:
+				return false
+			case len(at) == 2 && identLeaf(at[0], lk.ok) && at[0].neg && equalLeaf(at[1], lk.entry, "BlockHash", "ParentHash") && at[1].neg:
 				return true
 			}
-			var lit *ast.CompositeLit
-			ast.Inspect(is.Cond, func(m ast.Node) bool {
-				if cl, ok := m.(*ast.CompositeLit); ok {
-					lit = cl
+			die("%s: parent-not-found guard has unexpected shape", what)
+			return false
+		}
+		if parentGuard("PreCheckBlock", pre, "parent not found", parentLk) {
+			defb("parentHashCompared", true, "PreCheckBlock: the parent found in BlockIndex is compared with the whole previous-block field")
+		} else {
+			defb("parentHashCompared", false, "PreCheckBlock: the parent found in BlockIndex is NOT compared with the whole previous-block field")
+		}
+		// the same guard in AcceptHeader (panic instead of an error)
+		ah := chain.get("Chain", "AcceptHeader")
+		var ahLk *lookup
+		for _, l := range lookups(ah) {
+			l := l
+			if mentions(l.index, "ParentHash") && ahLk == nil {
+				ahLk = &l
+			}
+		}
+		if parentGuard("AcceptHeader", ah, "This should not happen", ahLk) {
+			defb("acceptHeaderParentHashCompared", true, "AcceptHeader: the parent found in BlockIndex is compared with the whole previous-block field")
+		} else {
+			defb("acceptHeaderParentHashCompared", false, "AcceptHeader: the parent found in BlockIndex is NOT compared with the whole previous-block field")
+		}
+	}
+	// version gating: a disjunction of three `ver < k && bl.Height >= ch.Consensus.BIPxxHeight` (read as a set:
+	// the order of the three and of the two tests inside each does not matter)
+	{
+		n := chain.findGuard(pre, "Rejected Version=").norm(env)
+		if n.kind != nOr || len(n.kids) != 3 {
+			die("version gating: expected a disjunction of 3 tests")
+		}
+		bipOf := func(e ast.Expr) (name string) {
+			ast.Inspect(e, func(n ast.Node) bool {
+				if se, ok := n.(*ast.SelectorExpr); ok && strings.HasPrefix(se.Sel.Name, "BIP") {
+					name = se.Sel.Name
 				}
 				return true
 			})
-			if lit == nil || hdr != nil {
-				return true
+			return
+		}
+		got := map[string]string{}
+		for _, k := range n.kids {
+			at, ok := k.flat(nAnd)
+			if !ok || len(at) != 2 || at[0].op == token.ILLEGAL || at[1].op == token.ILLEGAL {
+				die("version gating: expected `version < k && height >= activation`")
+			}
+			ver, hgt := at[0], at[1]
+			if bipOf(ver.x) != "" || bipOf(ver.y) != "" {
+				ver, hgt = hgt, ver
+			}
+			op, sel := hgt.op, bipOf(hgt.y)
+			if sel == "" { // activation height on the left: mirror
+				op, sel = mirrorOp[hgt.op], bipOf(hgt.x)
+			}
+			if sel == "" || bipOf(ver.x) != "" || bipOf(ver.y) != "" {
+				die("version gating: expected `version < k && height >= activation`")
+			}
+			if op != token.GEQ {
+				die("version gating: height comparison is %s, expected >=", op)
+			}
+			c, nc := constAddends(ver.y, env)
+			if nc != 0 {
+				die("version gating: version bound is not a constant")
+			}
+			if _, dup := got[sel]; dup {
+				die("version gating: %s tested twice", sel)
+			}
+			got[sel] = want(cmp{ver.op, c}, token.LSS, "version gating")
+		}
+		for _, sel := range []string{"BIP34Height", "BIP66Height", "BIP65Height"} {
+			v, ok := got[sel]
+			if !ok {
+				die("version gating: no test for %s", sel)
+			}
+			def("minVersion_"+sel, v, "PreCheckBlock: version < this is refused from "+sel)
+		}
+	}
+	// witness commitment guard: `len(pk) >= 38 && bytes.Equal(pk[:6], []byte{…})`, possibly inside a predicate helper
+	{
+		var hdr []uint64
+		minlen := ""
+		for _, g := range chain.allGuards(post) {
+			n := g.norm(env)
+			var lit *ast.CompositeLit
+			var holder *nnf
+			for _, a := range n.atoms() {
+				if a.op != token.ILLEGAL {
+					continue
+				}
+				ast.Inspect(a.leaf, func(m ast.Node) bool {
+					if cl, ok := m.(*ast.CompositeLit); ok {
+						lit, holder = cl, a
+					}
+					return true
+				})
+			}
+			if lit == nil {
+				continue
+			}
+			if hdr != nil {
+				die("witness header guard: more than one guard compares with a byte literal")
 			}
 			for _, el := range lit.Elts {
 				v, ok := eval(el, env)
@@ -466,47 +566,79 @@ func main() {
 				u, _ := constant.Uint64Val(v)
 				hdr = append(hdr, u)
 			}
-			cs := comparisons(is.Cond, env)
-			if len(cs) < 1 {
+			at, ok := n.flat(nAnd)
+			if !ok || len(at) != 2 || holder.neg {
 				die("witness header guard: unexpected shape")
 			}
-			minlen = want(cs[0], token.GEQ, "witness commitment length")
-			return true
-		})
+			other := at[0]
+			if other == holder {
+				other = at[1]
+			}
+			if other.op == token.ILLEGAL {
+				die("witness header guard: unexpected shape")
+			}
+			c, _ := constAddends(other.y, env)
+			minlen = want(cmp{other.op, c}, token.GEQ, "witness commitment length")
+		}
 		if hdr == nil {
 			die("witness commitment header literal not found")
 		}
 		def("witnessCommitMinLen", minlen, "PostCheckBlock: commitment output needs len(pk_script) >= this")
 		fmt.Fprintf(&sb, "/-- PostCheckBlock: commitment header bytes -/\ndef witnessHeader : List UInt8 := %s\n", vtrans.LeanList(hdr, "UInt8", 16))
 		facts++
-		cs := comparisons(findIf(post, "bad-witness-nonce-size").Cond, env)
-		if len(cs) != 3 {
-			die("nonce-size guard: expected 3 comparisons")
+		// nonce size: `len(S) != 1 || len(S[0]) != 1 || len(S[0][0]) != 32` — a disjunction of three inequalities, told
+		// apart by the indexing depth of what is measured
+		at, ok := chain.findGuard(post, "bad-witness-nonce-size").norm(env).flat(nOr)
+		if !ok || len(at) != 3 {
+			die("nonce-size guard: expected a disjunction of 3 comparisons")
 		}
-		for i, c := range cs {
-			if c.op != token.NEQ {
-				die("nonce-size guard: comparison %d is %s, expected !=", i, c.op)
+		depthOf := func(e ast.Expr) (d int) {
+			ast.Inspect(e, func(n ast.Node) bool {
+				if _, ok := n.(*ast.IndexExpr); ok {
+					d++
+				}
+				return true
+			})
+			return
+		}
+		for i, a := range at {
+			if a.op != token.NEQ {
+				die("nonce-size guard: comparison %d is %s, expected !=", i, a.op)
 			}
 		}
-		def("witnessNonceStacks", toNat(cs[0].cst, "nonce"), "coinbase must have exactly this many witness stacks")
-		def("witnessNonceItems", toNat(cs[1].cst, "nonce"), "…with this many items")
-		def("witnessNonceLen", toNat(cs[2].cst, "nonce"), "…of this length")
+		sort.SliceStable(at, func(i, j int) bool { return depthOf(at[i].x) < depthOf(at[j].x) })
+		if !(depthOf(at[0].x) < depthOf(at[1].x) && depthOf(at[1].x) < depthOf(at[2].x)) {
+			die("nonce-size guard: the three lengths are not of a slice, its element and that element's element")
+		}
+		nonce := func(a *nnf) string {
+			c, nc := constAddends(a.y, env)
+			if nc != 0 {
+				die("nonce-size guard: non-constant bound")
+			}
+			return toNat(c, "nonce")
+		}
+		def("witnessNonceStacks", nonce(at[0]), "coinbase must have exactly this many witness stacks")
+		def("witnessNonceItems", nonce(at[1]), "…with this many items")
+		def("witnessNonceLen", nonce(at[2]), "…of this length")
 	}
 
 	// ---- tx.go: coinbase script length, oversize
-	txf := parse("lib/btc/tx.go")
-	ct, err := txf.Func("Tx", "CheckTransaction")
-	if err != nil {
-		die("%v", err)
-	}
+	ct := btcPkg.get("Tx", "CheckTransaction")
 	{
-		cs := comparisons(findIf(ct, "bad-cb-length").Cond, env)
-		if len(cs) != 2 {
+		// `len(script) < 2 || len(script) > 100`: a disjunction of a lower and an upper bound, in either order
+		at, ok := btcPkg.findGuard(ct, "bad-cb-length").norm(env).flat(nOr)
+		if !ok || len(at) != 2 || at[0].op == token.ILLEGAL || at[1].op == token.ILLEGAL {
 			die("bad-cb-length: expected 2 comparisons")
 		}
-		def("cbScriptMin", want(cs[0], token.LSS, "bad-cb-length"), "CheckTransaction: coinbase script shorter than this is refused")
-		def("cbScriptMax", want(cs[1], token.GTR, "bad-cb-length"), "CheckTransaction: coinbase script longer than this is refused")
-		cs = comparisons(findIf(ct, "bad-txns-oversize").Cond, env)
+		lo, hi := at[0], at[1]
+		if lo.op == token.GTR || lo.op == token.GEQ {
+			lo, hi = hi, lo
+		}
+		cl, _ := constAddends(lo.y, env)
+		ch, _ := constAddends(hi.y, env)
+		def("cbScriptMin", want(cmp{lo.op, cl}, token.LSS, "bad-cb-length"), "CheckTransaction: coinbase script shorter than this is refused")
+		def("cbScriptMax", want(cmp{hi.op, ch}, token.GTR, "bad-cb-length"), "CheckTransaction: coinbase script longer than this is refused")
+		cs := comparisons(btcPkg.findGuard(ct, "bad-txns-oversize").norm(env), env)
 		if len(cs) != 1 {
 			die("bad-txns-oversize: unexpected shape")
 		}
@@ -514,11 +646,7 @@ func main() {
 	}
 
 	// ---- chain.go: consensus parameters of the three networks (assignments in NewChainExt)
-	chf := parse("lib/chain/chain.go")
-	nce, err := chf.Func("", "NewChainExt")
-	if err != nil {
-		die("%v", err)
-	}
+	nce := chain.get("", "NewChainExt")
 	nets := map[string]map[string]string{"mainnet": {}, "testnet3": {}, "testnet4": {}}
 	var maxPowValue string
 	var walk func(stmts []ast.Stmt, ctx string)
@@ -618,42 +746,56 @@ func main() {
 	}
 
 	// ---- structural facts about the retarget code that the model relies on
-	gn, err := diff.Func("Chain", "GetNextWorkRequired")
-	if err != nil {
-		die("%v", err)
-	}
+	gn := chain.get("Chain", "GetNextWorkRequired")
 	{
-		// the two clamps: `actualTimespan < POWRetargetSpam/4` and `actualTimespan > POWRetargetSpam*4`
-		var lo, hi string
+		// the two clamps: `if T < POWRetargetSpam/4 { T = POWRetargetSpam/4 }` and `if T > POWRetargetSpam*4 { T = POWRetargetSpam*4 }`
+		// for one and the same local T (whatever it is called), each the only clamp of its direction in the function
+		var lo, hi, clamped string
 		ast.Inspect(gn.Body, func(n ast.Node) bool {
 			is, ok := n.(*ast.IfStmt)
-			if !ok {
+			if !ok || len(is.Body.List) != 1 {
 				return true
 			}
-			be, ok := is.Cond.(*ast.BinaryExpr)
-			if !ok {
+			a := toNNF(is.Cond, false, env)
+			if a.kind != nAtom || a.op == token.ILLEGAL {
 				return true
 			}
-			id, ok := be.X.(*ast.Ident)
-			if !ok || id.Name != "actualTimespan" || len(is.Body.List) != 1 {
+			id, ok := unparen(a.x).(*ast.Ident)
+			if !ok {
 				return true
 			}
 			as, ok := is.Body.List[0].(*ast.AssignStmt)
-			if !ok {
+			if !ok || as.Tok != token.ASSIGN || len(as.Lhs) != 1 || len(as.Rhs) != 1 {
 				return true
 			}
-			c, ok1 := eval(be.Y, env)
-			a, ok2 := eval(as.Rhs[0], env)
-			if !ok1 || !ok2 || !constant.Compare(c, token.EQL, a) {
-				die("retarget clamp: guard constant and assigned constant differ")
+			if l, ok := as.Lhs[0].(*ast.Ident); !ok || l.Name != id.Name {
+				return true
 			}
-			switch be.Op {
-			case token.LSS:
-				lo = toNat(c, "clamp lo")
-			case token.GTR:
-				hi = toNat(c, "clamp hi")
+			c, ok1 := eval(a.y, env)
+			v, ok2 := eval(as.Rhs[0], env)
+			if !ok1 || !ok2 {
+				return true // not a clamp to a constant
+			}
+			if clamped != "" && clamped != id.Name {
+				die("retarget clamp: two different variables are clamped")
+			}
+			clamped = id.Name
+			// x < c / x <= c-1 with x = v is a lower clamp to v when c == v; x > c / x >= c+1 an upper clamp
+			switch a.op {
+			case token.LSS, token.LEQ:
+				k := canon(cmp{a.op, c}, token.LSS)
+				if !constant.Compare(constant.ToInt(k.cst), token.EQL, constant.ToInt(v)) || lo != "" {
+					die("retarget clamp: guard constant and assigned constant differ")
+				}
+				lo = toNat(v, "clamp lo")
+			case token.GTR, token.GEQ:
+				k := canon(cmp{a.op, c}, token.GTR)
+				if !constant.Compare(constant.ToInt(k.cst), token.EQL, constant.ToInt(v)) || hi != "" {
+					die("retarget clamp: guard constant and assigned constant differ")
+				}
+				hi = toNat(v, "clamp hi")
 			default:
-				die("retarget clamp: unexpected operator %s", be.Op)
+				die("retarget clamp: unexpected operator %s", a.op)
 			}
 			return true
 		})
@@ -662,28 +804,47 @@ func main() {
 		}
 		def("retargetMinTimespan", lo, "GetNextWorkRequired: lower clamp of actualTimespan")
 		def("retargetMaxTimespan", hi, "GetNextWorkRequired: upper clamp of actualTimespan")
-		// testnet min-difficulty rule: ts > lst.Timestamp()+TargetSpacing*2
+		// testnet min-difficulty rule: <second parameter> > lst.Timestamp()+TargetSpacing*2
+		tsName := ""
+		{
+			var ps []string
+			for _, f := range gn.Type.Params.List {
+				for _, n := range f.Names {
+					ps = append(ps, n.Name)
+				}
+			}
+			if len(ps) != 2 {
+				die("GetNextWorkRequired: expected two named parameters")
+			}
+			tsName = ps[1]
+		}
 		found := false
-		ast.Inspect(gn.Body, func(n ast.Node) bool {
-			is, ok := n.(*ast.IfStmt)
-			if !ok {
-				return true
+		for _, g := range chain.allGuards(gn) {
+			if g.fd != gn {
+				continue
 			}
-			be, ok := is.Cond.(*ast.BinaryExpr)
-			if !ok || be.Op != token.GTR {
-				return true
+			a := g.norm(env)
+			if a.kind != nAtom || a.op == token.ILLEGAL {
+				continue
 			}
-			if id, ok := be.X.(*ast.Ident); !ok || id.Name != "ts" {
-				return true
+			x, y, op := a.x, a.y, a.op
+			if id, ok := unparen(y).(*ast.Ident); ok && id.Name == tsName { // parameter on the right: mirror
+				x, y, op = y, x, mirrorOp[op]
 			}
-			c, nc := constAddends(be.Y, env)
+			if id, ok := unparen(x).(*ast.Ident); !ok || id.Name != tsName {
+				continue
+			}
+			c, nc := constAddends(y, env)
 			if nc != 1 {
-				return true
+				continue
 			}
-			def("testnetMinDiffGap", toNat(c, "testnet gap"), "GetNextWorkRequired (testnet): ts > prev time + this allows MaxPOWBits")
+			if found {
+				die("testnet min-difficulty guard: more than one candidate")
+			}
+			def("testnetMinDiffGap", want(cmp{op, c}, token.GTR, "testnet gap"), "GetNextWorkRequired (testnet): ts > prev time + this allows MaxPOWBits")
+			facts-- // `want` and `def` both count; this is one fact (as before)
 			found = true
-			return true
-		})
+		}
 		if !found {
 			die("testnet min-difficulty guard not found")
 		}
@@ -691,6 +852,9 @@ func main() {
 
 	sb.WriteString("\nend GocoinV.Gen.ConsensusConsts\n")
 	out := vlib.Root() + "/lean/GocoinV/Gen/ConsensusConsts.lean"
+	if o := os.Getenv("GEN_C05_OUT"); o != "" { // self-tests of the generator: write somewhere else
+		out = o
+	}
 	old, _ := os.ReadFile(out)
 	if string(old) != sb.String() { // keep the mtime when nothing changed (no Lean rebuild)
 		os.Remove(out)
